@@ -30,3 +30,18 @@ Definition fd_table_ok (t : list (string * bool * bool * string * bool)) : bool 
 
 Lemma gen_fd_table_ok : fd_table_ok gen_fd_table = true.
 Proof. vm_compute. reflexivity. Qed.
+
+(* OneToOne: every mutating method of dict is overridden (an inherited mutator
+   writes the forward dict only and breaks the mirror - the |= defect). *)
+Definition oto_row_ok (r : string * bool * bool) : bool :=
+  match r with
+  | (n, is_mut, overridden) =>
+      Bool.eqb is_mut (existsb (String.eqb n) model_mutators) && implb is_mut overridden
+  end.
+
+Definition oto_table_ok (t : list (string * bool * bool)) : bool :=
+  forallb oto_row_ok t &&
+  forallb (fun m => existsb (fun r => String.eqb (fst (fst r)) m) t) model_mutators.
+
+Lemma gen_oto_table_ok : oto_table_ok gen_oto_table = true.
+Proof. vm_compute. reflexivity. Qed.
